@@ -25,7 +25,7 @@ func sessGen(r *vh.Rng, maxOps int) []string {
 	en2 := 4 + r.Intn(5)
 	for i := 0; i < nP; i++ {
 		mask := "1fffe000"
-		diff := vh.Pick(r, []string{"0", "0", "0", "5000", "0.5", "1"})
+		diff := vh.Pick(r, []string{"0", "0", "0", "5000", "0.5", "1", "0.0000152587890625", "0.000030517578125", "0.0000152587890625"})
 		ops = append(ops, fmt.Sprintf("pool %s mask=%s en1=%s en2size=%d diff=%s auth=1 reject=%s", sessPoolNames[i], mask,
 			vh.Pick(r, []string{"11650804a6c84c", "0a0b0c0d", "ffee"}), en2, diff, vh.Pick(r, []string{"-", "-", "-", "err", "false"})))
 	}
@@ -59,7 +59,13 @@ func sessGen(r *vh.Rng, maxOps int) []string {
 				vb = fmt.Sprintf("%08x", r.Intn(3)<<13)
 			}
 			user := vh.Pick(r, []string{"acct.rig7", "someone.else"})
-			ops = append(ops, fmt.Sprintf("submit %d %s %s %0*x 64c25820 %08x %s", id, user, job, en2*2, r.Intn(shares), r.Intn(shares), vb))
+			op := fmt.Sprintf("submit %d %s %s %0*x 64c25820 %08x %s", id, user, job, en2*2, r.Intn(shares), r.Intn(shares), vb)
+			if r.Bool(45) {
+				// the miner really works on it: the nonce is searched at run time against what pool p announced for
+				// that job (meeting its difficulty, or falling just short of it)
+				op += fmt.Sprintf(" mine=%s:%s", p, vh.Pick(r, []string{"meet", "meet", "meet", "short"}))
+			}
+			ops = append(ops, op)
 		case k < 50: // notify from some connected pool
 			var cs []string
 			for p := range connected {
@@ -82,7 +88,7 @@ func sessGen(r *vh.Rng, maxOps int) []string {
 			p := vh.Pick(r, cs)
 			switch r.Intn(4) {
 			case 0, 1:
-				ops = append(ops, fmt.Sprintf("diff %s %s", p, vh.Pick(r, []string{"0", "5000", "0.5", "4096", "1"})))
+				ops = append(ops, fmt.Sprintf("diff %s %s", p, vh.Pick(r, []string{"0", "5000", "0.5", "4096", "1", "0.0000152587890625", "0.000030517578125", "0.0000457763671875"})))
 			case 2:
 				ops = append(ops, fmt.Sprintf("xn %s %s %d", p, vh.Pick(r, []string{"aabbccdd", "0102", "11650804a6c84c"}), en2))
 			default:
@@ -153,6 +159,45 @@ func sessExec(tr *vh.Transcript, ops []string) {
 		s.rec.flush(tr)
 		s.stats(tr)
 	}
+	// proof of work: what the fake pools announced (as far as the harness follows it: the miner's aim), and the tables
+	// of hash inputs a share could be judged against (job template x extranonce1 x version mask)
+	tmpls := map[string]vh.JobTemplate{"t0": vh.ParseNotify(sessNotifyJSON("j", "t0", false)), "real": vh.ParseNotify(sessNotifyJSON("j", "real", false))}
+	type aim struct {
+		tmpl, en1 string
+		units     int64
+	}
+	type poolView struct {
+		en1, mask string
+		units     int64
+		jobs      map[string]aim
+	}
+	views := map[string]*poolView{}
+	en1s, masks := map[string]bool{}, map[string]bool{"": true}
+	diffU := func(txt string) int64 {
+		var x float64
+		fmt.Sscan(txt, &x)
+		return int64(x * 65536)
+	}
+	for _, op := range ops {
+		f := strings.Fields(op)
+		switch f[0] {
+		case "pool":
+			m := kv(f[2:])
+			en1s[m["en1"]], masks[m["mask"]] = true, true
+			views[f[1]] = &poolView{en1: m["en1"], mask: m["mask"], units: diffU(m["diff"]), jobs: map[string]aim{}}
+			views[f[1]].jobs[f[1]+"-j1"] = aim{"t0", m["en1"], diffU(m["diff"])}
+		case "xn":
+			en1s[f[2]] = true
+		case "vmask":
+			masks[f[2]] = true
+		}
+	}
+	tok := func(x string) string {
+		if x == "" {
+			return "~"
+		}
+		return x
+	}
 	for _, op := range ops {
 		f := strings.Fields(op)
 		if s != nil {
@@ -184,22 +229,34 @@ func sessExec(tr *vh.Transcript, ops []string) {
 			s.handshake()
 			after(op)
 		case "notify":
+			if v := views[f[1]]; v != nil {
+				v.jobs[f[2]] = aim{f[3], v.en1, v.units}
+			}
 			pc := s.lastConn(f[1])
 			if pc != nil {
 				pc.send("%s", sessNotifyJSON(f[2], f[3], f[4] == "1"))
 			}
 			after(op)
 		case "diff":
+			if v := views[f[1]]; v != nil {
+				v.units = diffU(f[2])
+			}
 			if pc := s.lastConn(f[1]); pc != nil {
 				pc.send(`{"id":null,"method":"mining.set_difficulty","params":[%s]}`, f[2])
 			}
 			after(op)
 		case "xn":
+			if v := views[f[1]]; v != nil {
+				v.en1 = f[2]
+			}
 			if pc := s.lastConn(f[1]); pc != nil {
 				pc.send(`{"id":null,"method":"mining.set_extranonce","params":["%s",%s]}`, f[2], f[3])
 			}
 			after(op)
 		case "vmask":
+			if v := views[f[1]]; v != nil {
+				v.mask = f[2]
+			}
 			if pc := s.lastConn(f[1]); pc != nil {
 				pc.send(`{"id":null,"method":"mining.set_version_mask","params":["%s"]}`, f[2])
 			}
@@ -213,6 +270,50 @@ func sessExec(tr *vh.Transcript, ops []string) {
 			}
 			after(op)
 		case "submit":
+			vb := f[7]
+			if vb == "-" {
+				vb = ""
+			}
+			if len(f) > 8 && strings.HasPrefix(f[8], "sd=") { // a replayed op: the table is computed again
+				f = f[:8]
+			}
+			if len(f) > 8 && strings.HasPrefix(f[8], "mine=") {
+				// search a nonce against what the aimed-at pool announced for this job
+				parts := strings.Split(f[8][5:], ":")
+				if v := views[parts[0]]; v != nil {
+					if a, ok := v.jobs[f[3]]; ok && a.units > 0 && a.units <= 4 {
+						var n0 uint32
+						fmt.Sscanf(f[6], "%x", &n0)
+						mn := tmpls[a.tmpl].NewMiner(a.en1, f[4], f[5], vb, v.mask)
+						for k := uint32(0); k < 1<<22; k++ {
+							u := mn.Units(n0 + k*7919)
+							if (parts[1] == "meet" && u >= a.units) || (parts[1] == "short" && u < a.units && (2*u >= a.units || a.units == 1)) {
+								f[6] = fmt.Sprintf("%08x", n0+k*7919)
+								if chk := tmpls[a.tmpl].ShareUnits(a.en1, f[4], f[5], f[6], vb, v.mask); chk != u {
+									panic(fmt.Sprintf("harness: miner and share-units disagree (%d vs %d)", u, chk))
+								}
+								break
+							}
+						}
+					}
+				}
+				f = f[:8]
+			}
+			// the share's difficulty (units of 2^-16) against every job data it could be hashed with
+			var sd []string
+			for _, tn := range []string{"t0", "real"} {
+				for e := range en1s {
+					if vb == "" {
+						sd = append(sd, fmt.Sprintf("%s/%s/-/%d", tn, tok(e), tmpls[tn].ShareUnits(e, f[4], f[5], f[6], "", "")))
+						continue
+					}
+					for mk := range masks {
+						sd = append(sd, fmt.Sprintf("%s/%s/%s/%d", tn, tok(e), tok(mk), tmpls[tn].ShareUnits(e, f[4], f[5], f[6], vb, mk)))
+					}
+				}
+			}
+			sortStrings(sd)
+			op = strings.Join(f, " ") + " sd=" + strings.Join(sd, ",")
 			if f[7] == "-" {
 				s.miner.send(`{"id":%s,"method":"mining.submit","params":["%s","%s","%s","%s","%s"]}`, f[1], f[2], f[3], f[4], f[5], f[6])
 			} else {
